@@ -4341,6 +4341,8 @@ class TensorDictBase(MutableMapping):
                 return is_boolean(idx[0])
             if hasattr(idx, "dtype") and idx.dtype is torch.bool:
                 return idx.ndim
+            if isinstance(idx, np.ndarray) and idx.dtype == np.dtype("bool"):
+                return idx.ndim
             return None
 
         num_boolean_dim = is_boolean(idx)
